@@ -365,6 +365,10 @@ Definition check_case (c : case) : N :=
     | None => false
     end in
   let p := okb c in
-  (* a case counts as inside the known class only if the model accepts the whole trace *)
-  verdict corr p (known_class c && corr)
-          (if p then first_reject (c_init c) (c_events c) 0 else 100).
+  (* A touched immutable commit inside the known class is reported as known only if the model
+     accepts the whole trace; if the model rejects the trace, the case is reported as a
+     correspondence break (never as a violation with a failing input: the only rejected
+     observations are inside the known class). *)
+  let k := known_class c in
+  verdict corr (p || k) (k && corr)
+          (if p || k then first_reject (c_init c) (c_events c) 0 else 100).
